@@ -31,8 +31,9 @@ import (
 var prop = flag.String("prop", "C01", "property id to report under")
 
 type world struct {
-	handler http.Handler
-	calls   map[string]int
+	handler     http.Handler
+	calls       map[string]int
+	failUploads int // the next n response uploads break after a few bytes
 }
 
 // loopRT delivers a request to the proxy's handler in a new controlled thread.
@@ -69,6 +70,16 @@ func (p *pipeRW) Flush() {}
 func (l loopRT) RoundTrip(r *http.Request) (*http.Response, error) {
 	w := l.w
 	vs.Wait("proxy is serving", unsafe.Pointer(w), func() bool { return w.handler != nil })
+	if r.Method == "POST" && strings.HasSuffix(r.URL.Path, "agent/response") {
+		vs.Touch(unsafe.Pointer(w))
+		if w.failUploads > 0 {
+			w.failUploads--
+			buf := make([]byte, 8)
+			r.Body.Read(buf)
+			r.Body.Close()
+			return nil, fmt.Errorf("scripted: connection reset during the upload")
+		}
+	}
 	pr, pw := vio.Pipe()
 	ready := false
 	rw := &pipeRW{hdr: http.Header{}, pw: pw, ready: &ready}
@@ -113,11 +124,16 @@ func (b backendRT) RoundTrip(r *http.Request) (*http.Response, error) {
 func tok(i int) string { return fmt.Sprintf("tok%d", i) }
 
 func scenario(name string, K int, sizes []int, pb int) vx.Scenario {
+	return scenarioF(name, K, sizes, pb, 0)
+}
+
+// scenarioF: the first `fail` response uploads break (all three attempts of whichever request uploads first).
+func scenarioF(name string, K int, sizes []int, pb int, fail int) vx.Scenario {
 	// virtual time stops before the proxy's 30 s pending-list timeout: the run ends when every
 	// client was served and the agent is parked in its long poll
 	return vx.Scenario{Name: name, PB: pb, Delay: true, MaxSteps: 20000, MaxTime: time.Second,
 		Setup: func(s *vs.Sched) func(*vs.Result) vx.Exec {
-			w := &world{calls: map[string]int{}}
+			w := &world{calls: map[string]int{}, failUploads: fail}
 			hooks := venv.Reset()
 			hooks.Serve = func(l net.Listener, h http.Handler) error {
 				vs.Touch(unsafe.Pointer(w))
@@ -160,6 +176,23 @@ func scenario(name string, K int, sizes []int, pb int) vx.Scenario {
 				for i, rec := range recs {
 					t := tok(i)
 					obs = append(obs, fmt.Sprintf("c%d:%d/%s/%s", i, rec.Code, rec.Hdr.Get("X-Tok"), rec.Trailers().Get("X-Tr")))
+					if !rec.Wrote && fail > 0 {
+						// a request whose upload failed on every attempt legitimately stays unanswered;
+						// it must still have reached the backend at most once, unaltered
+						n := 0
+						for k, c := range w.calls {
+							if strings.HasPrefix(k, t+" ") {
+								n += c
+								if k != t+" POST /p/"+t+"?q="+t+" "+bodies[i] {
+									x.Violations = append(x.Violations, fmt.Sprintf("ALTERED: the backend received %q for client %d", vh.Short(k), i))
+								}
+							}
+						}
+						if n > 1 {
+							x.Violations = append(x.Violations, fmt.Sprintf("FORWARDS: client %d's request reached the backend %d times", i, n))
+						}
+						continue
+					}
 					if !rec.Wrote {
 						if len(r.Panics) == 0 && !r.Horizon && !r.Exited {
 							x.Violations = append(x.Violations, fmt.Sprintf("HANG: client %d never received a response; blocked: %s", i, blocked(r)))
@@ -175,7 +208,7 @@ func scenario(name string, K int, sizes []int, pb int) vx.Scenario {
 						x.Violations = append(x.Violations, fmt.Sprintf("FORWARDS: the backend received client %d's request %d times (unaltered)", i, n))
 					}
 				}
-				if len(w.calls) > K {
+				if len(w.calls) > K && fail == 0 {
 					x.Violations = append(x.Violations, fmt.Sprintf("FORWARDS: the backend saw %d distinct requests for %d clients", len(w.calls), K))
 				}
 				x.Obs = strings.Join(obs, " ")
@@ -198,8 +231,10 @@ func main() {
 	flag.Parse()
 	vx.Main(&vx.Harness{Property: *prop, Name: "joined", Scenarios: func(tier string) []vx.Scenario {
 		if tier == "thorough" {
-			return []vx.Scenario{scenario("K1", 1, []int{5000}, 4), scenario("K2", 2, []int{0, 5000}, 3), scenario("K3", 3, []int{1, 0, 40000}, 2)}
+			return []vx.Scenario{scenario("K1", 1, []int{5000}, 4), scenario("K2", 2, []int{0, 5000}, 3), scenario("K3", 3, []int{1, 0, 40000}, 2),
+				scenarioF("K1-upload-fails", 1, []int{100}, 2, 3), scenarioF("K2-first-upload-fails", 2, []int{100, 50}, 2, 3)}
 		}
-		return []vx.Scenario{scenario("K1", 1, []int{5000}, 3), scenario("K2", 2, []int{0, 5000}, 2), scenario("K3", 3, []int{1, 0, 40000}, 1)}
+		return []vx.Scenario{scenario("K1", 1, []int{5000}, 3), scenario("K2", 2, []int{0, 5000}, 2), scenario("K3", 3, []int{1, 0, 40000}, 1),
+			scenarioF("K1-upload-fails", 1, []int{100}, 1, 3), scenarioF("K2-first-upload-fails", 2, []int{100, 50}, 1, 3)}
 	}})
 }
